@@ -50,7 +50,7 @@ IterMutOps == [op : {"iter_mut"}, n : 0..Cardinality(Items), nb : IF Kind = "dpq
 PairsUpTo2(I) == {<<>>} \cup {<< <<k, p>> >> : k \in I, p \in Prios}
                  \cup {<< <<k1, p1>>, <<k2, p2>> >> : k1 \in I, p1 \in Prios, k2 \in I, p2 \in Prios}
 ExtendOps(I) == [op : {"extend"}, pairs : PairsUpTo2(I), hint : {<<>>, <<0, -1>>}]
-MiscOps == [op : {"clear"}]
+MiscOps == [op : {"clear"}] \cup [op : {"drain"}, n : 0..Cardinality(Items)]
 
 \* creation of a queue from a pair sequence (only as the first step of a history)
 PairsUpTo3(I) == PairsUpTo2(I) \cup {<< <<k1, p1>>, <<k2, p2>>, <<k3, p3>> >> :
